@@ -1,8 +1,9 @@
 (** C04 — regenerate: coherent new trace for every selection; MH weight when no
-    Cond switches branch.  The frame / discard clauses and definedness are
-    judged per case by the correspondence (Model/Corr.v:regen_spec). *)
+    Cond switches branch; the frame clause for Cond-free programs
+    (C04_regenerate_frame).  The frame clause for Cond programs, the discard clause
+    and definedness are judged per case by the correspondence (Model/Corr.v:regen_spec). *)
 From GV Require Import Model.Gfi Model.Spec Model.Ast Model.Corr
-     Lemmas.CmLemmas Lemmas.GfiCoh Lemmas.GfiGen Lemmas.GfiUpd Lemmas.GfiRegen.
+     Lemmas.CmLemmas Lemmas.GfiCoh Lemmas.GfiGen Lemmas.GfiUpd Lemmas.GfiRegen Lemmas.Law Lemmas.GfiFrame.
 
 Theorem C04_regenerate_coherent :
   forall g t s args' t' w d, reach (gf_regenerate g t s args') (t', w, d) ->
@@ -88,3 +89,12 @@ Proof.
     vm_compute. split; auto; discriminate.
   - vm_compute in E. inversion E; subst. vm_compute in U. discriminate.
 Qed.
+
+(** Frame (Cond-free programs): every leaf of the regenerated trace's choice map lies in the
+    selection or is the old trace's value at that path - unselected choices are untouched. *)
+Theorem C04_regenerate_frame :
+  forall g, NC g ->
+  forall t s args t' w d, reach (gf_regenerate g t s args) (t', w, d) ->
+    forall p v, leaf_at (choices t') p v -> selected s p = true \/ leaf_at (choices t) p v.
+Proof. intros g Hg t s args t' w d H. exact (regenerate_framed g Hg t s args t' w d H). Qed.
+Print Assumptions C04_regenerate_frame.
